@@ -515,7 +515,7 @@ def c15(tier):
 
 
 def read_units(tier):
-    ns = [1, 2, 3] if tier == "quick" else [1, 2, 3, 4, 5, 6]
+    ns = [1, 2, 3] if tier == "quick" else [1, 2, 3, 4, 5]
     return [U(f"read_step:{kind}:n{n}", "tab", "read_step", dict(kind=kind, n=n), timeout=300 if tier == "quick" else 1800)
             for kind in ("name", "prefix", "datatype") for n in ns]
 
@@ -524,7 +524,7 @@ def read_units(tier):
       bounds={"quick": {"reader lemma": "LookupDecoder from an ARBITRARY state (any fill pattern, any last-assigned / last-reused, n 1..3) x optional entry row x one reference, all ids symbolic in [0, n+1]: result and post-state equal the spec rules when legal, raises when not",
                         "streams": "reference encoder, 6 statements (generalized + RDF-star terms, repeats, non-ASCII, empty name) in TRIPLES/QUADS/GRAPHS, versions 1 and 2 (namespace rows), tables (8,{0,3,4},{2,3}); six producer-choice policies (quick: the first three policies tied together; redundant entries, explicit entry ids, explicit reference ids, eviction victim, non-use of repeated terms, IRI split point) each never/always/alternating, 5 framings incl. empty frames, delimited or not, repeated options row - all symbolic",
                         "entries": "generic flat / grouped / to_graph (the rdflib entry points are compared against these in C15)"},
-              "thorough": {"reader lemma": "n 1..6"}},
+              "thorough": {"reader lemma": "n 1..5"}},
       outside="producers using table sizes beyond the bounds; choice sequences that are not expressible as per-kind never/always/alternate policies; streams valid only under spec readings the reference does not share",
       explanation="L-READ-IND + H-REFENC")
 def c04(tier):
@@ -579,7 +579,7 @@ def c07(tier):
                         "pyjelly/integrations/generic/parse.py:parse_jelly_flat", "pyjelly/integrations/rdflib/parse.py:parse_jelly_flat"],
       bounds={"quick": {"interleavings": "two workloads (serializer+serializer, serializer+parser, parser+parser at frame/item granularity; Stream-API workloads at statement granularity, also built from ONE shared SerializerOptions object; 3 statements each) advanced one generator step at a time under a symbolic schedule of 7 booleans (every interleaving), after a symbolic history of 0..2 created-and-abandoned streams (one abandoned mid-stream, one that raised mid-statement); both integrations",
                         "determinism": "each workload run twice in one process must be byte-identical"},
-              "thorough": {"interleavings": "also three workloads, schedules of 10 booleans"}},
+              "thorough": {"interleavings": "also three workloads, schedules of 9 booleans"}},
       outside="NOT CLAIMED: pre-emptive THREAD schedules (CrossHair executes one thread; no symbolic thread scheduler for CPython is available) and determinism across PROCESSES / PYTHONHASHSEED values (the seed is fixed before the interpreter starts and cannot be a symbolic variable)",
       explanation="H-INTERLEAVE (reduced scope: generator-step interleavings and same-process determinism only)")
 def c12(tier):
@@ -591,7 +591,11 @@ def c12(tier):
             for hh in range(3):
                 us.append(U(f"interleave:{integ}:c{ci}:h{hh}", "interleave", "interleave", dict(integ=integ, workloads=ws, steps=7, h=hh), timeout=900))
         if tier != "quick":
-            us.append(U(f"interleave3:{integ}", "interleave", "interleave", dict(integ=integ, workloads=[["ser", "A"], ["parse", "B"], ["ser", "C"]], steps=10), timeout=1800))
+            for hh in range(3):
+                for a in (False, True):
+                    for b in (False, True):
+                        us.append(U(f"interleave3:{integ}:h{hh}:s{int(a)}{int(b)}", "interleave", "interleave",
+                                    dict(integ=integ, workloads=[["ser", "A"], ["parse", "B"], ["ser", "C"]], steps=9, h=hh, fixsched=[a, b]), timeout=1800))
     return us + [twin(us[0])]
 
 
